@@ -8,7 +8,7 @@ def profile(st):
             'trading_tfs': ['1m', '3m', '5m', '15m', '30m', '1h'], 'data_tfs': ['5m', '15m', '30m', '45m', '1h', '4h'], 'p_data_route': 0.5,
             'p_small_lattice': 0.0, 'p_warmup': 0.3,
             'mode': st.choice(['cross', 'cross', 'isolated'], 'mode'),
-            'program': {'p_enter': st.choice([0.05, 0.15, 0.4], 'pe'),
+            'program': {'p_enter': st.choice([0.05, 0.15, 0.4, 0.8], 'pe'),
                         'entry_styles': st.choice([['market'], ['market', 'limit', 'stop'], ['limit', 'stop']], 'es'),
                         'entry_dist': st.choice([1, 3, 10], 'edist'),
                         'sl_rows': st.choice([0, 1, 1], 'sl'), 'tp_rows': st.choice([0, 1, 1], 'tp'),
